@@ -58,6 +58,9 @@ def operands(i):
         pass
     else:
         out.append(("unknown-instruction-class", None))
+    # a store whose value operand is missing (r5-C14-1: an operand nulled by a stale use list) is an operand that is no value
+    if i.OpCode in (IR.OpCode.STORE, IR.OpCode.STORE_ARRAY, IR.OpCode.STORE_MEMBER) and getattr(i, "Store", 0) is None:
+        out.append(("store", None))
     return out
 
 
